@@ -72,8 +72,13 @@ def valid_blob_pub(hid=4, pos=(361, 17, 13), mode="DH", data=PLAIN, symbolic=Tru
 
     from . import e2e
 
+    from dpapi_ng._gkdi import FFCDHParameters
+
     salg = "DH" if mode == "DH" else mode
-    roots = [e2e.root_spec(hid, secret_alg=salg, priv=64)]
+    # the root key is configured with the group the DC's envelope uses (since the repair of D16 the receiver refuses a key blob
+    # whose parameters are not the root key's)
+    spar = FFCDHParameters(key_length=e2e.SMALL_DH[0], field_order=e2e.SMALL_DH[1], generator=e2e.SMALL_DH[2]).pack() if mode == "DH" else None
+    roots = [e2e.root_spec(hid, secret_alg=salg, secret_params=spar, priv=64)]
     plen = 8
     draws = [bytes((seed + i) % 256 for i in range(32)), bytes((seed * 3 + i) % 256 for i in range(12)), bytes((seed * 7 + i + 1) % 256 for i in range(plen))]
     cm = sym.patched() if symbolic else sym.kdf_budget(10 ** 6)
